@@ -249,6 +249,20 @@ def gen_sections(ctx, cases):
                 z = zlib.compress(p, level)
                 cases.append(('sec_comp', [cfg, 1, SHF_COMPRESSED, 0, BASE, 1, 1, 0xa5a5a5a5 if cfg[0] else 0, len(p), 1, z,
                                            ['valid', z, p], b'', 0, 2, level, level]))
+    # the length of the COMPRESSED stream around power-of-two buffer sizes (an implementation that feeds
+    # the inflater piecewise must not depend on where the stream tail - end-of-block bits, Adler-32 - falls):
+    # stored blocks (level 0: |z| = n + 2 + 5 per 65535-byte block + 4) and incompressible data at level 6
+    for cfg in (cfgs[0], cfgs[3 % len(cfgs)]):
+        for T in ctx.scale([8192, 32768, 65536], [4096, 8192, 16384, 32768, 65536, 98304]):
+            for delta in (-1, 0, 1, 2, 3, 4, 5, 9):
+                for level in (0, 6):
+                    n = T + delta - 11 - (5 if T + delta - 11 > 65535 else 0)
+                    if level == 6 and delta not in (1, 4):
+                        continue
+                    pl = payload(rng, n, 0)
+                    z = zlib.compress(pl, level)
+                    cases.append(('sec_comp', [cfg, 1, SHF_COMPRESSED, 0, BASE, 1, 1, 0, len(pl), 1, z,
+                                               ['valid', z, pl], b'', 0, rng.choice([0, 3]), rng.getrandbits(8), level]))
     # compression header cut by the end of the file (construction fails)
     for cfg in cfgs[:2] + cfgs[2:3]:
         for cut in (0, 1, STD[cfg[0]]['ch'] - 1):
